@@ -1035,6 +1035,12 @@ def sockopts_gen(rng, tier):
             for (mark, dev, rp, rcv, snd, ut) in combos:
                 out.append("k%d net=%s role=%s mark=%d dev=%s rp=%d rcv=%d snd=%d ut=%d" % (n, nw, role, mark, dev, rp, rcv, snd, ut))
                 n += 1
+    # the sockets the router opens itself: listen() and a tcp upstream of initUpstream carry TCP_USER_TIMEOUT = 5000 ms
+    for nw in ("tcp4", "tcp6"):
+        for role in ("rlisten", "rupstream"):
+            for (mark, dev, rp, rcv, snd) in [(0, "-", 0, 0, 0), (7, "lo", 1, 32768, 32768), (3, "-", 0, 0, 0), (0, "lo", 0, 0, 0)]:
+                out.append("k%d net=%s role=%s mark=%d dev=%s rp=%d rcv=%d snd=%d ut=5000" % (n, nw, role, mark, dev, rp, rcv, snd))
+                n += 1
     return out
 
 
@@ -1168,8 +1174,15 @@ PROPS["C17"] = dict(
          "spellings x name as URL host / as dial_addr x {the name moves 127.0.0.1 -> 127.0.0.2 between two connections "
          "and the first server goes away, the name does not resolve at construction but later, the name has two "
          "addresses}: where each exchange arrives against rs_case (resolution per connection); distinct = distinct "
-         "case line, all non-trivial",
-    assumptions=["the process's system trust store is the harness' own (SSL_CERT_FILE / SSL_CERT_DIR set by build/implrun "
+         "case line, all non-trivial; sockopts: the real controlSocket(opts) as Control of net.Dialer / net.ListenConfig on "
+         "tcp4 tcp6 udp4 udp6 x dial / listen x option sets (so_mark, so_bindtodevice lo, so_reuseport, so_rcvbuf, "
+         "so_sndbuf, TCP_USER_TIMEOUT), read back with getsockopt on the very socket, plus the listener socket of "
+         "(*router).listen and the socket of a tcp upstream of initUpstream (5000 ms constant), against sko_control; "
+         "dohredir: http / https (HTTP/1.1, h2) / h3 upstreams whose fake server answers the first request with 200 / "
+         "301 302 303 307 308 + Location (other authority, cleartext, other path, other port) / 204 4xx 5xx: requests, "
+         "handshakes, connections, Hosts and server names seen by the server against doh_case",
+    assumptions=["the process runs as root on Linux (SO_MARK, SO_BINDTODEVICE lo)",
+                 "the process's system trust store is the harness' own (SSL_CERT_FILE / SSL_CERT_DIR set by build/implrun "
                  "before crypto/x509 first loads it; verified at start-up, a failure is a harness error, not an alarm)",
                  "names under c17r.test / c17.test are not known to any resolver but the harness' own",
                  "every address of 127.0.0.0/8 is local (127.0.0.2, .3, .17, .18 are used as distinct peers)",
